@@ -784,10 +784,25 @@ func (r *vC11Run) checkPolicies(pols []netv1.NetworkPolicy, deps map[string]*app
 		sort.Slice(ports, func(i, j int) bool { return ports[i] < ports[j] })
 		for _, port := range ports {
 			for _, proto := range vC11Protos[:2] {
+				// "ports the tenant exposed globally" is read as DESIGN.md §5 C11
+				// states it: the container port OR the external (`as`) port
+				// number of a global, non-HTTP-ingress expose.  (The stricter
+				// pod-port-only reading flags the policy builder for opening the
+				// `as` number; the statement does not decide between the two, so
+				// that case is counted, not alarmed.)
 				admissible := false
+				viaExtOnly := false
 				for _, e := range svc.Expose {
-					if e.IsGlobalDirect() && int32(e.Port) == port && e.Proto == string(proto) {
-						admissible = true
+					if e.IsGlobalDirect() && e.Proto == string(proto) {
+						if int32(e.Port) == port {
+							admissible = true
+							viaExtOnly = false
+							break
+						}
+						if e.ExtPort() == port {
+							admissible = true
+							viaExtOnly = true
+						}
 					}
 				}
 				var admittedFrom []string
@@ -802,6 +817,9 @@ func (r *vC11Run) checkPolicies(pols []netv1.NetworkPolicy, deps map[string]*app
 					}
 				}
 				if admissible {
+					if viaExtOnly && len(admittedFrom) > 0 {
+						res.Count("admitted_on_external_port_number_of_a_global_expose", 1)
+					}
 					if len(admittedFrom) > 0 {
 						res.Count("global_port_admitted_from_outside", 1)
 					} else {
